@@ -78,9 +78,13 @@ def jobs(tier, seed, pool):
 
 def _with_reuse(out, seed):
     """a quarter of the runs keep one NifFile object across the loads of a cycle (F-REUSE)"""
+    names = [n for n, _ in inputs.sample_names('in')]
     for i, j in enumerate(out):
-        if Rng(seed, PROP, 'reuse', i).chance(0.25):
+        r = Rng(seed, PROP, 'reuse', i)
+        if r.chance(0.25):
             j['plan']['reuse_object'] = True
+            if r.chance(0.6):
+                j['plan']['prior'] = {'sample': r.choice(names)}   # the object loaded and saved another file before
     return out
 
 
